@@ -457,6 +457,14 @@ def main(tier):
     E3, T3, P3 = [x.ravel() for x in np.meshgrid(Es[::3], ths[::3], phs, indexing='ij')]
     calls += execlib.independence(ck, 'c12', 'shipped', [('CS_KN', Es), ('DCS_Thoms', ths), ('DCS_KN', E2, T2), ('ComptonEnergy', E2, T2), ('MomentTransf', E2, T2),
                                                            ('DCSP_Thoms', T3, P3), ('DCSP_KN', E3, T3, P3)])
+    # a host thread in a directed rounding mode gets the same functions up to rounding - angles far outside [-pi, pi] included
+    _Er = np.array([1e-3, 0.5, 10.0, 100.0, 511.0, 5e3, 1e5])
+    _Tr = np.concatenate([np.linspace(-4 * PI, 4 * PI, 81), [4.0, 5.5, 7.0, -3.5, 9.0, 15.0, 40.0, 55.0, -100.0, 1e3]])
+    _E2r, _T2r = [x.ravel() for x in np.meshgrid(_Er, _Tr, indexing='ij')]
+    _E3r, _T3r, _P3r = [x.ravel() for x in np.meshgrid(_Er[::2], _Tr[::3], np.array([-7.0, -1.0, 0.0, 0.3, 2.0, 4.5, 9.0]), indexing='ij')]
+    st['calls_in_directed_rounding_modes'] = execlib.rounding_modes(ck, 'c12', 'shipped', [('CS_KN', _Er), ('DCS_Thoms', _Tr), ('DCS_KN', _E2r, _T2r), ('ComptonEnergy', _E2r, _T2r), ('MomentTransf', _E2r, _T2r),
+                                                                                             ('DCSP_Thoms', _T3r, _P3r), ('DCSP_KN', _E3r, _T3r, _P3r)])
+    calls += st['calls_in_directed_rounding_modes']
     cov = dict(evaluations=int(calls), distinct_nontrivial=len(st['cells']),
                rule='distinct = (function:relation, energy decade) pairs with at least one decided comparison; energies %d log-spaced over 1e-6..1e6 keV '
                     '+ seeded log-uniform, theta %d points on [0, pi] incl. 0, pi/2, pi and their images under theta -> -theta, theta +/- 2pi, theta + 4pi; '
